@@ -125,7 +125,7 @@ pub fn check_stream(ls: &LangSet, code: &str, toks: &[IdTok]) -> Verdict {
 
 pub fn run(ctx: &Ctx) -> Outcome {
     let n_streams = ctx.n(500_000, 10_000_000);
-    let rep = run_sharded(ctx, |w, nw, rep| {
+    let mut rep = run_sharded(ctx, |w, nw, rep| {
         let ls = LangSet::new();
         let mut rng = Rng::derive(ctx.seed, "C15", w as u64);
         for i in 0..(n_streams / nw as u64) {
@@ -163,6 +163,9 @@ pub fn run(ctx: &Ctx) -> Outcome {
             }
         }
     });
+    if !ctx.quick() {
+        super::legs::fuzz_leg(ctx, &mut rep, 45);
+    }
     let rule = "cases = hinted grammar-noise token streams (6-20% separation hints, 4% not-a-number hints, whitespace tokens, random case, up to 40 words) at thresholds 0, 3, 10, inf: iterator output == batch output then None twice more; 0 tokens pulled before the first request and never more than up to the end of the second number after the returned one (counted with a wrapping iterator); no occurrence spans a separation-hinted token and its predecessor; hinted stream == same stream with a ',' token inserted; no occurrence contains a not-a-number token; non-trivial = stream with a recognised number or a hint";
     finish(ctx, rep, rule, &["hints are only placed on tokens the scanner does not skip (not on whitespace or lone hyphens)"], vec![])
 }
